@@ -57,8 +57,8 @@ theorem processAlignment_gen (nodes : String → Option Sort.NodeTags) (steps : 
 theorem sortNode_gen : Gen.sortNodeRev = -1 ∧ Gen.sortNodeFwd = 1 := by
   first | exact ⟨rfl, rfl⟩ | decide
 
-/-- C12: the pass-through guard -/
-theorem passThrough_gen (r : Gaf.Rec) : Cigar.passThrough r = Gen.tooLong r.qs r.qe := by
+/-- C12: the pass-through guard depends on the read interval only (not on the path slice or the fetched read) -/
+theorem passThrough_gen (r : Gaf.Rec) (refLen queryLen : Int) : Cigar.passThrough r = Gen.tooLong r.qs r.qe refLen queryLen := by
   unfold Cigar.passThrough Gen.tooLong
   by_cases h : r.qe - r.qs > 60000
   · have : ((r.qe : Int) - (r.qs : Int) > 60000) := by omega
